@@ -1100,6 +1100,19 @@ fn add_operator(
         ));
     }
 
+    // Operator outputs must be value nodes. An output name may refer to an
+    // initializer or constant in an invalid model.
+    for output_id in outputs.iter().flatten() {
+        if !matches!(graph.get_node(*output_id), Some(crate::graph::Node::Value(_))) {
+            return Err(load_error!(
+                OperatorInvalid,
+                onnx_op.name.as_deref(),
+                "operator output \"{}\" is not a value",
+                graph.node_name(*output_id)
+            ));
+        }
+    }
+
     let mut name = onnx_op.name.as_deref();
 
     // It is possible for ONNX operators to have a name that conflicts with a
